@@ -267,52 +267,87 @@ template<class DT, class IT, int BS> void sp_get(const SparseVectorBlocked<DT, I
 template<class DT, class IT> SparseVector<DT, IT> sp_raw(Index n, const IVec& idx, const IVec& vals, bool sorted)
 { auto e = make_vec<DT, IT>(vals); auto ix = make_ivec<IT>(idx); return SparseVector<DT, IT>(n, e, ix, sorted); }
 
-// BS = 0: SparseVector, otherwise SparseVectorBlocked<BS>; mode 0 = element-wise insertion, 1 = raw array constructor
+// BS = 0: SparseVector, otherwise SparseVectorBlocked<BS>; mode 0 = the write history of the case replayed through
+// operator()(index, value) (superseded writes included), 1 = raw array constructor (histories without overwrite).
+// The containers sort and drop superseded writes lazily, on the first access after a write.  Therefore the call
+// under test is issued twice on two identically built vectors: (A) as the FIRST access after the writes - nothing,
+// not even used_elements() or an element read, touches the vector before it - and (B) after a complete read-back.
 template<class DT, class IT, int BS>
 bool run_sparse(Ctx& k, int mode, const std::string& tag0)
 {
   typedef typename SparseOf<DT, IT, BS>::Type VT;
   const int bs = BS == 0 ? 1 : BS;
-  const std::string tag = tag0 + (BS == 0 ? "/S" : "/SB" + std::to_string(BS)) + (mode ? "/raw" : "/ins");
-  const vj::Value& sh = k.c["shape"];
+  const std::string tag = tag0 + (BS == 0 ? "/S" : "/SB" + std::to_string(BS)) + (mode ? "/raw" : "/writes");
+  const vj::Value& sh = k.c["shape"]; const vj::Value& writes = k.c["writes"];
   const Index n = Index(sh["n"].as_int()); IVec ins = sh["ins"].ints();
   const IVec& flat = k.pre[0];
+  if(writes.size() != ins.size()) return k.fail(tag + ": malformed case (writes)");
   std::set<long long> distinct(ins.begin(), ins.end());
-  bool dup = distinct.size() != ins.size();
+  const bool dup = distinct.size() != ins.size();
   bool asc = true; for(std::size_t q = 1; q < ins.size(); ++q) if(!(ins[q - 1] < ins[q])) asc = false;
-  VT s(n);
-  if(mode == 1)
+  if(mode == 1 && (dup || ins.empty() || n == 0)) return true; // the raw array constructor takes n > 0 and a duplicate-free non-empty list
+  auto build = [&]() -> VT
   {
-    if(dup || ins.empty() || n == 0) return true; // the raw array constructor takes n > 0 and a duplicate-free non-empty list
-    IVec vals; for(long long e : ins) for(int j = 0; j < bs; ++j) vals.push_back(flat.at(std::size_t(e) * bs + j));
-    if constexpr (BS == 0) s = sp_raw<DT, IT>(n, ins, vals, asc);
-    else { auto e = make_bvec<DT, IT, (BS == 0 ? 1 : BS)>(vals); auto ix = make_ivec<IT>(ins); s = VT(n, e, ix, asc); }
-  }
-  else
-  {
-    for(std::size_t q = 0; q < ins.size(); ++q)
+    if(mode == 1)
     {
-      bool last = true; for(std::size_t t = q + 1; t < ins.size(); ++t) if(ins[t] == ins[q]) last = false;
-      IVec val(bs); for(int j = 0; j < bs; ++j) val[j] = last ? flat.at(std::size_t(ins[q]) * bs + j) : 99 + (long long)q;
+      IVec vals; for(std::size_t q = 0; q < ins.size(); ++q) { IVec w = writes[q]["val"].ints(); vals.insert(vals.end(), w.begin(), w.end()); }
+      if constexpr (BS == 0) return sp_raw<DT, IT>(n, ins, vals, asc);
+      else { auto e = make_bvec<DT, IT, (BS == 0 ? 1 : BS)>(vals); auto ix = make_ivec<IT>(ins); return VT(n, e, ix, asc); }
+    }
+    VT s(n);
+    for(std::size_t q = 0; q < writes.size(); ++q)
+    {
+      IVec val = writes[q]["val"].ints();
+      if(val.size() != std::size_t(bs) || writes[q]["i"].as_int() != ins[q]) throw std::runtime_error("malformed write");
       sp_set(s, Index(ins[q]), val.data());
     }
-  }
-  auto readback = [&]() { std::vector<double> g; for(Index i = 0; i < n; ++i) sp_get(s, i, g); return g; };
-  if(s.size() != n) return k.fail(tag + ": size() = " + std::to_string(s.size()));
-  { auto g = readback(); if(!same_scaled(g, 1, flat)) return k.fail(tag + ": elements read back " + ds(g) + " expected " + vs(flat)); }
-  if(s.used_elements() != Index(distinct.size())) return k.fail(tag + ": used_elements() = " + std::to_string(s.used_elements()) + " expected " + std::to_string(distinct.size()));
+    return s;
+  };
   const DT alpha = DT(double(k.an) / double(k.ad));
-  std::vector<double> res; const std::string& op = k.op;
-  if(op == "build") {}
-  else if(op == "format") s.format(alpha);
-  else if(op == "max_abs_element") res.push_back(double(s.max_abs_element()));
-  else if(op == "min_abs_element") res.push_back(double(s.min_abs_element()));
-  else if(op == "max_element") res.push_back(double(s.max_element()));
-  else if(op == "min_element") res.push_back(double(s.min_element()));
-  else return k.fail(tag + ": unknown operation " + op);
-  if(!check_results<DT>(k, res, tag)) return false;
-  { auto g = readback(); if(!same_scaled(g, k.wden, k.post[0])) return k.fail(tag + ": " + op + " vector is " + ds(g) + " expected " + vs(k.post[0]) + "/" + std::to_string(k.wden)); }
-  if(s.used_elements() != Index(distinct.size())) return k.fail(tag + ": used_elements() after " + op);
+  const std::string& op = k.op;
+  bool known = true;
+  auto call = [&](VT& s, std::vector<double>& res)
+  {
+    if(op == "build") {}
+    else if(op == "format") s.format(alpha);
+    else if(op == "max_abs_element") res.push_back(double(s.max_abs_element()));
+    else if(op == "min_abs_element") res.push_back(double(s.min_abs_element()));
+    else if(op == "max_element") res.push_back(double(s.max_element()));
+    else if(op == "min_element") res.push_back(double(s.min_element()));
+    else known = false;
+  };
+  auto readback = [&](const VT& s) { std::vector<double> g; for(Index i = 0; i < n; ++i) sp_get(s, i, g); return g; };
+  auto check_post = [&](const VT& s, const std::string& t) -> bool
+  {
+    auto g = readback(s);
+    if(!same_scaled(g, k.wden, k.post[0])) return k.fail(t + ": " + op + " vector is " + ds(g) + " expected " + vs(k.post[0]) + "/" + std::to_string(k.wden));
+    if(s.used_elements() != Index(distinct.size())) return k.fail(t + ": used_elements() after " + op + " = " + std::to_string(s.used_elements()) + " expected " + std::to_string(distinct.size()));
+    if(s.size() != n) return k.fail(t + ": size() = " + std::to_string(s.size()));
+    return true;
+  };
+  // (A) the call under test is the first access after the writes
+  {
+    const std::string t = tag + " [first access after the writes]";
+    VT s = build();
+    std::vector<double> res; call(s, res);
+    if(!known) return k.fail(tag + ": unknown operation " + op);
+    if(!check_results<DT>(k, res, t)) return false;
+    if(!check_post(s, t)) return false;
+    // the same query again, now on the accessed vector
+    std::vector<double> res2; if(op != "format") call(s, res2);
+    if(op != "format" && !check_results<DT>(k, res2, t + " [repeated]")) return false;
+  }
+  // (B) after a complete read-back of the vector
+  {
+    const std::string t = tag + " [after read-back]";
+    VT s = build();
+    if(s.size() != n) return k.fail(t + ": size() = " + std::to_string(s.size()));
+    { auto g = readback(s); if(!same_scaled(g, 1, flat)) return k.fail(t + ": elements read back " + ds(g) + " expected " + vs(flat)); }
+    if(s.used_elements() != Index(distinct.size())) return k.fail(t + ": used_elements() = " + std::to_string(s.used_elements()) + " expected " + std::to_string(distinct.size()));
+    std::vector<double> res; call(s, res);
+    if(!check_results<DT>(k, res, t)) return false;
+    if(!check_post(s, t)) return false;
+  }
   return true;
 }
 
